@@ -100,6 +100,9 @@ pub fn vamm_case(c: &CurveCase, ctx: &Ctx, out: &mut Outcome) {
                     2 => e,
                     3 => e.saturating_add(1),
                     4 => e / 2,
+                    // the extremes of the type: the largest number and one raw unit
+                    6 => u128::MAX,
+                    7 => 1,
                     _ => e.saturating_mul(2).saturating_add(7),
                 };
                 if l != 0 {
